@@ -190,7 +190,8 @@ fn gen_hms(r: &mut Rng, max_h: i64, signed: bool) -> String {
 fn gen_rule(r: &mut Rng) -> String {
     let mut s = match r.below(6) {
         0 => format!("J{}", *r.pick(&[1, 59, 60, 61, 365, 100, 200, 300])),
-        1 => format!("{}", *r.pick(&[0, 58, 59, 60, 364, 365, 100, 250])),
+        // zero-based day 365 exists only in leap years (unspecified otherwise): not generated
+        1 => format!("{}", *r.pick(&[0, 58, 59, 60, 363, 364, 100, 250])),
         _ => format!("M{}.{}.{}", r.range(1, 12), r.range(1, 5), r.range(0, 6)),
     };
     if r.chance(2, 3) {
